@@ -1909,7 +1909,7 @@ struct TemplateCore {
         while (offset < end_offset) {
             switch (content[offset]) {
                 case QOperationSymbol::OrExp: { // ||
-                    if (content[(offset + 1)] == QOperationSymbol::OrExp) {
+                    if (((offset + 1) < end_offset) && (content[(offset + 1)] == QOperationSymbol::OrExp)) {
                         return QOperation::Or;
                     }
 
@@ -1917,7 +1917,7 @@ struct TemplateCore {
                 }
 
                 case QOperationSymbol::AndExp: { // &&
-                    if (content[(offset + 1)] == QOperationSymbol::AndExp) {
+                    if (((offset + 1) < end_offset) && (content[(offset + 1)] == QOperationSymbol::AndExp)) {
                         return QOperation::And;
                     }
 
@@ -1925,7 +1925,7 @@ struct TemplateCore {
                 }
 
                 case QOperationSymbol::GreaterExp: { // > or >=
-                    if (content[(offset + 1)] == QOperationSymbol::EqualExp) {
+                    if (((offset + 1) < end_offset) && (content[(offset + 1)] == QOperationSymbol::EqualExp)) {
                         return QOperation::GreaterOrEqual;
                     }
 
@@ -1933,7 +1933,7 @@ struct TemplateCore {
                 }
 
                 case QOperationSymbol::LessExp: { // < or <=
-                    if (content[(offset + 1)] == QOperationSymbol::EqualExp) {
+                    if (((offset + 1) < end_offset) && (content[(offset + 1)] == QOperationSymbol::EqualExp)) {
                         return QOperation::LessOrEqual;
                     }
 
@@ -1941,7 +1941,7 @@ struct TemplateCore {
                 }
 
                 case QOperationSymbol::NotExp: { // !=
-                    if (content[(offset + 1)] == QOperationSymbol::EqualExp) {
+                    if (((offset + 1) < end_offset) && (content[(offset + 1)] == QOperationSymbol::EqualExp)) {
                         return QOperation::NotEqual;
                     }
 
@@ -1949,7 +1949,7 @@ struct TemplateCore {
                 }
 
                 case QOperationSymbol::EqualExp: { // ==
-                    if (content[(offset + 1)] == QOperationSymbol::EqualExp) {
+                    if (((offset + 1) < end_offset) && (content[(offset + 1)] == QOperationSymbol::EqualExp)) {
                         return QOperation::Equal;
                     }
 
